@@ -559,6 +559,47 @@ big_enum!(E130;
 // the type list
 // ---------------------------------------------------------------------------------------------
 
+/// A type whose representation depends on `is_human_readable()` (like uuid, IP addresses, chrono ...):
+/// a single byte in a binary format, a string in a human-readable one. It round-trips only when the
+/// serializer and the deserializer give the same answer.
+#[derive(Clone, Debug, PartialEq)]
+pub struct HrProbe(pub u8);
+impl Serialize for HrProbe {
+    fn serialize<S: serde::Serializer>(&self, s: S) -> Result<S::Ok, S::Error> {
+        if s.is_human_readable() {
+            s.serialize_str(&format!("probe-{}", self.0))
+        } else {
+            s.serialize_u8(self.0)
+        }
+    }
+}
+impl<'de> Deserialize<'de> for HrProbe {
+    fn deserialize<D: serde::Deserializer<'de>>(d: D) -> Result<Self, D::Error> {
+        if d.is_human_readable() {
+            let s = String::deserialize(d)?;
+            s.strip_prefix("probe-").and_then(|n| n.parse().ok()).map(HrProbe).ok_or_else(|| serde::de::Error::custom("bad probe"))
+        } else {
+            u8::deserialize(d).map(HrProbe)
+        }
+    }
+}
+impl Dom for HrProbe {
+    fn dom() -> Vec<Self> {
+        vec![HrProbe(0), HrProbe(7), HrProbe(255)]
+    }
+    fn biteq(&self, o: &Self) -> bool {
+        self == o
+    }
+}
+impl Dom for uuid::Uuid {
+    fn dom() -> Vec<Self> {
+        vec![uuid::Uuid::nil(), uuid::Uuid::from_bytes([0xFF; 16]), uuid::Uuid::from_bytes([1, 2, 3, 4, 5, 6, 7, 8, 9, 10, 11, 12, 13, 14, 15, 16])]
+    }
+    fn biteq(&self, o: &Self) -> bool {
+        self == o
+    }
+}
+
 pub trait OwnedTy: Serialize + DeserializeOwned + Dom + Debug + Clone + 'static {}
 impl<T: Serialize + DeserializeOwned + Dom + Debug + Clone + 'static> OwnedTy for T {}
 
@@ -582,5 +623,6 @@ pub fn for_each_owned_type<V: OwnedVisitor>(v: &mut V) {
         UnitS, NewT, TupS, EmptyTupS, EmptyNamedS, NamedS, FloatS, NestedS, MapS, GenericS<u8>, GenericS<Vec<i16>>, GenericS<SmallE>,
         SmallE, NestedE, E130, Vec<SmallE>, Option<NestedE>, (SmallE, NamedS),
         OneUnit, (OneUnit, OneUnit), [OneUnit; 3], Option<OneUnit>, Vec<OneUnit>,
+        HrProbe, (u8, HrProbe), Vec<HrProbe>, uuid::Uuid, Option<uuid::Uuid>,
     );
 }
